@@ -55,6 +55,9 @@ pub fn compress_fastest<M: Matcher>(
             // Write the header, then the block
             header.serialize(output);
             output.extend_from_slice(state.matcher.get_last_space());
+            // The compressed block (and with it any new huffman table) is discarded,
+            // so the decoder never sees that table: do not reuse it for later blocks.
+            state.last_huff_table = None;
         } else {
             let header = BlockHeader {
                 last_block,
